@@ -73,6 +73,7 @@ OtherTags ==
   @@ [t \in {<<40,16>>, <<40,17>>} |-> "US"]   \* Rows, Columns
   @@ [t \in {<<40,262>>} |-> "Xs"]             \* SmallestImagePixelValue (US or SS)
   @@ [t \in {<<8,4416>>, <<64,629>>} |-> "SQ"] \* ReferencedImageSequence, RequestAttributesSequence
+  @@ [t \in {<<136,512>>} |-> "SQ"]            \* (0088,0200) IconImageSequence
   @@ [t \in {<<65532,65532>>} |-> "OB"]        \* DataSetTrailingPadding
   @@ [t \in {<<20,12368>>} |-> "Ox"]           \* (0014,3050) DarkCurrentCounts (OB or OW)
   @@ [t \in {<<40,12294>>} |-> "Lt"]           \* (0028,3006) LUTData (US or OW)
